@@ -44,7 +44,7 @@ Lemma try_idx_ok (v : json) (i : N) (r : json) :
   try_jvalue_with_idx v i = LamOk r <-> nav1 v (SIndex i) = Some r.
 Proof.
   destruct v; cbn [try_jvalue_with_idx nav1]; try (split; intros H; discriminate).
-  destruct (nth_error l (N.to_nat i)); split; intros H; inversion H; reflexivity.
+  destruct (nth_N l i); split; intros H; inversion H; reflexivity.
 Qed.
 
 Lemma try_field_ok (v : json) (f : string) (r : json) :
@@ -243,14 +243,22 @@ Qed.
 (* ------------------------------------------------------------------------------------------ *)
 (* the u32 bound is invisible on values whose arrays fit 32 bits *)
 
-Lemma fit_arr_nth (l : list json) :
-  forall (n : nat) (x : json),
-    (fix go (l : list json) := match l with [] => true | x :: r => arrays_fit_u32 x && go r end) l = true ->
-    nth_error l n = Some x -> arrays_fit_u32 x = true.
+Lemma nth_N_lt {A} (l : list A) : forall (i : N) (x : A), nth_N l i = Some x -> i < N.of_nat (length l).
 Proof.
-  induction l as [|y l IH]; intros n x Hfit Hn.
-  - destruct n; discriminate.
-  - apply andb_true_iff in Hfit. destruct Hfit as [Hy Hl]. destruct n as [|n]; cbn [nth_error] in Hn.
+  induction l as [|y l IH]; intros i x H; cbn [nth_N] in H; [discriminate|].
+  cbn [length]. destruct (i =? 0) eqn:E.
+  - apply N.eqb_eq in E. subst i. lia.
+  - apply N.eqb_neq in E. apply IH in H. lia.
+Qed.
+
+Lemma fit_arr_nth (l : list json) :
+  forall (n : N) (x : json),
+    (fix go (l : list json) := match l with [] => true | x :: r => arrays_fit_u32 x && go r end) l = true ->
+    nth_N l n = Some x -> arrays_fit_u32 x = true.
+Proof.
+  induction l as [|y l IH]; intros n x Hfit Hn; cbn [nth_N] in Hn.
+  - discriminate.
+  - apply andb_true_iff in Hfit. destruct Hfit as [Hy Hl]. destruct (n =? 0).
     + inversion Hn. subst y. exact Hy.
     + eapply IH; eauto.
 Qed.
@@ -295,7 +303,7 @@ Proof.
   destruct v; cbn [nav1] in Hn; try discriminate.
   cbn [arrays_fit_u32] in Hfit. apply andb_true_iff in Hfit. destruct Hfit as [Hlen _].
   apply N.leb_le in Hlen.
-  assert (Hlt : (N.to_nat (Z.to_N z) < length l)%nat) by (apply nth_error_Some; rewrite Hn; discriminate).
+  assert (Hlt : Z.to_N z < N.of_nat (length l)) by (eapply nth_N_lt; exact Hn).
   rewrite z_to_u32_in_range; [reflexivity | exact H0 | unfold u32_max; lia].
 Qed.
 
@@ -399,9 +407,9 @@ Proof.
 Qed.
 
 Lemma stream_nth_ok (elems : list json) (i : N) (x : json) :
-  stream_nth elems i = LOk x <-> nth_error elems (N.to_nat i) = Some x.
+  stream_nth elems i = LOk x <-> nth_N elems i = Some x.
 Proof.
-  unfold stream_nth. destruct (nth_error elems (N.to_nat i)); split; intros H; inversion H; reflexivity.
+  unfold stream_nth. destruct (nth_N elems i); split; intros H; inversion H; reflexivity.
 Qed.
 
 Lemma C24_canon_stream_first_holds : C24_canon_stream_first_stmt.
@@ -431,7 +439,7 @@ Proof.
     destruct (resolve_all e body) as [ss'|] eqn:Hrr; [|discriminate].
     inversion Hs. subst ss. cbn [nav] in Hnav.
     destruct s as [f|i]; cbn [nav1] in Hnav; [discriminate|].
-    destruct (nth_error elems (N.to_nat i)) as [x|] eqn:Hn; [|discriminate].
+    destruct (nth_N elems i) as [x|] eqn:Hn; [|discriminate].
     exists i, x. repeat split; auto. apply select_path_ok. exists ss'. auto.
 Qed.
 
@@ -446,7 +454,7 @@ Lemma select_stream_catchable (e : env) (elems : list json) (path : list accesso
 Proof.
   unfold select_by_path_from_stream.
   destruct (split_to_idx e path) as [[i b]|c'|] eqn:Hs; cbn [lbind fst snd].
-  - unfold stream_nth. destruct (nth_error elems (N.to_nat i)); cbn [lbind].
+  - unfold stream_nth. destruct (nth_N elems i); cbn [lbind].
     + apply select_path_catchable.
     + intros H. inversion H. reflexivity.
   - intros H. inversion H. subst c'. eapply split_to_idx_catchable. exact Hs.
@@ -464,7 +472,7 @@ Proof.
   unfold select_by_path_from_stream.
   destruct (split_to_idx e (a :: body)) as [[i b]|c'|s'] eqn:Hs; cbn [lbind fst snd].
   - apply split_to_idx_body in Hs. subst b.
-    unfold stream_nth. destruct (nth_error elems (N.to_nat i)); cbn [lbind]; [|discriminate].
+    unfold stream_nth. destruct (nth_N elems i); cbn [lbind]; [|discriminate].
     apply select_path_no_crash. exact Hbody.
   - discriminate.
   - exfalso. eapply split_to_idx_no_crash; eauto.
